@@ -1,3 +1,4 @@
+mod arena;
 mod c17;
 mod canon;
 mod evidence;
@@ -5,6 +6,9 @@ mod grammar;
 mod hashseed;
 mod oracles;
 mod pool;
+mod sched_mc;
+mod sched_ops;
+mod sched_oracles;
 mod spec;
 mod stages;
 mod sweep;
@@ -54,6 +58,10 @@ fn check(prop: &str, tier: &str) -> i32 {
     if prop == "C06" {
         return c06(tier);
     }
+    if matches!(prop, "C09" | "C10" | "C13") {
+        pool::install_panic_recorder_thread();
+        return sched_mc::check(prop, tier);
+    }
     if let Some(s) = sweep_spec(prop) {
         return sweep::check(s, tier);
     }
@@ -90,10 +98,18 @@ fn main() {
     match args.get(1).map(|s| s.as_str()) {
         Some("worker") => pool::worker_main(&worker_handle),
         Some("check") => {
+            evidence::init_stdout();
             let prop = args.get(2).cloned().unwrap_or_default();
             let code = if args.get(3).map(|s| s.as_str()) == Some("--replay") {
                 let path = args.get(4).cloned().unwrap_or_default();
-                sweep::replay(&prop, &path)
+                let engine = std::fs::read_to_string(&path).ok().and_then(|t| serde_json::from_str::<Value>(&t).ok()).and_then(|v| v.get("engine").and_then(|e| e.as_str()).map(|s| s.to_string()));
+                match engine.as_deref() {
+                    Some("sched-mc") => {
+                        pool::install_panic_recorder_thread();
+                        sched_mc::replay(&prop, &path)
+                    }
+                    _ => sweep::replay(&prop, &path),
+                }
             } else {
                 let tier = args.get(3).cloned().or_else(|| std::env::var("VERIF_TIER").ok()).unwrap_or_else(|| "quick".into());
                 check(&prop, &tier)
